@@ -2,7 +2,7 @@ from specs.common import run, ASSUME_COMMON
 
 SPEC = {
     "runs": [
-        run("e3-serial", "c11_lockfree", "asan", 20000, 5000000, sq=8, st=16, need_lib=False,
+        run("e3-serial", "c11_lockfree", "asan", 20000, 2000000, sq=8, st=16, need_lib=False,
             tier_params={"thorough": {"enum_every": 100000}},
             timeout={"quick": 1500, "thorough": 10800}),
         run("e2-free", "c11_lockfree", "tsan", 200, 20000, sq=4, st=16, need_lib=True,
@@ -15,11 +15,11 @@ SPEC = {
                   "lock_try_lock_failures": 100,
                   "enum_configs_exhausted": 8, "enum_runs": 3000,
                   "enum_lock_configs_exhausted": 6, "enum_lock_runs": 1500},
-        "thorough": {"queue_schedules": 2000000, "lock_schedules": 500000, "schedules_with_genuine_cas_failure": 100000,
-                     "schedules_with_injected_cas_failure": 200000, "legitimate_false_adds": 200000,
+        "thorough": {"queue_schedules": 1000000, "lock_schedules": 250000, "schedules_with_genuine_cas_failure": 50000,
+                     "schedules_with_injected_cas_failure": 100000, "legitimate_false_adds": 100000,
                      "queue_free_histories": 10000, "lock_free_histories": 3000,
-                     "enum_configs_exhausted": 30, "enum_runs": 100000,
-                     "enum_lock_configs_exhausted": 20, "enum_lock_runs": 50000},
+                     "enum_configs_exhausted": 6, "enum_runs": 50000,
+                     "enum_lock_configs_exhausted": 6, "enum_lock_runs": 30000},
     },
     "engine": "E3 serialised schedule",
     "engines_used": ["E3 serialised schedule", "E2 history"],
